@@ -321,6 +321,8 @@ def getfutureimports(entity):
   # (dime10) replacement for tf_inspect.isfunction and tf_inspect.ismethod
   if not (inspect.isfunction(entity) or inspect.ismethod(entity)):
     return tuple()
+  # Iterate over a snapshot: another thread may add or remove module globals
+  # while this runs ("dictionary changed size during iteration").
   return tuple(
-      sorted(name for name, value in entity.__globals__.items()
+      sorted(name for name, value in tuple(entity.__globals__.items())
              if getattr(value, '__module__', None) == '__future__'))
